@@ -96,16 +96,37 @@ type vRecME struct {
 	multiendpoint.MultiEndpoint
 	conn  *grpc.ClientConn
 	mu    sync.Mutex
-	stale int // reports that said the opposite of the pool's state at that moment
+	stale int // reports that said the opposite of what the pool had been for a while
 	total int
+	// the pool's READY-ness and since when, kept by watch()
+	ready bool
+	since time.Time
+}
+
+// watch timestamps the flips of the pool's READY-ness (event driven, so that a report made while the state is changing
+// is not taken for an old one).
+func (r *vRecME) watch(ctx context.Context) {
+	for {
+		s := r.conn.GetState()
+		r.mu.Lock()
+		if rd := s == connectivity.Ready; rd != r.ready || r.since.IsZero() {
+			r.ready, r.since = rd, time.Now()
+		}
+		r.mu.Unlock()
+		if !r.conn.WaitForStateChange(ctx, s) {
+			return
+		}
+	}
 }
 
 func (r *vRecME) SetEndpointAvailability(e string, avail bool) {
 	if e == "live1" {
-		ready := r.conn.GetState() == connectivity.Ready
 		r.mu.Lock()
 		r.total++
-		if ready != avail {
+		// stale = the report says the opposite of what the pool has been for at least 15 ms (the flips of the scenario
+		// are 60 ms apart; a report made within a moment of a flip is not judged)
+		if !r.since.IsZero() && r.ready != avail && time.Since(r.since) > 15*time.Millisecond &&
+			(r.conn.GetState() == connectivity.Ready) == r.ready {
 			r.stale++
 		}
 		r.mu.Unlock()
@@ -163,6 +184,9 @@ func (h *gmeHarness) liveMon(flips int) (line, obs string) {
 	}()
 	conn := g.pools["live1"].conn
 	rec := &vRecME{conn: conn}
+	wctx, wcancel := context.WithCancel(context.Background())
+	defer wcancel()
+	go rec.watch(wctx)
 	g.mu.Lock()
 	rec.MultiEndpoint = g.mes["main"]
 	g.mes["main"] = rec
